@@ -711,7 +711,8 @@ def gen_exc(rng):
     ratio_num = rng.choice([2, 4, 6, 8, 3, 5, 7, 10])      # int_time / cbf_int_time = ratio_num / 2
     return dict(kind='exc', T=rng.randint(1, 3), F=rng.randint(1, 3), n_ants=n_ants, pols=pols,
                 nps=rng.random() < 0.6, n_accs=rng.choice([1, 2, 4, 8, 16, 64, 100, 256, 1000]),
-                ratio_num=ratio_num, seed=rng.randrange(2 ** 30), cbf=rng.random() < 0.9)
+                ratio_num=ratio_num, seed=rng.randrange(2 ** 30), cbf=rng.random() < 0.9,
+                applycal=rng.random() < 0.35)
 
 
 def make_exc_dataset(c):
@@ -723,9 +724,21 @@ def make_exc_dataset(c):
         attrs = {'src_streams': ['corr'], 'corr_int_time': cbf_int, 'corr_n_accs': int(c['n_accs']),
                  'corr_src_streams': ['feng'], 'feng_instrument_dev_name': 'inst',
                  'inst_scale_factor_timestamp': 1712e6}
+    sensors, okw = None, None
+    if c.get('applycal'):
+        # gain calibration applied on the fly: the excision fraction is about the stored (unscaled) weights and
+        # must not change with it
+        ants = [f'm{i:03}' for i in range(c['n_ants'])]
+        pols = sorted(set(c['pols']))
+        g = np.array([[2.0, 0.5, 3.0][(i + 2 * j) % 3] for i in range(len(pols)) for j in range(len(ants))],
+                     dtype=np.complex64).reshape(len(pols), len(ants))
+        attrs = dict(attrs, cal_antlist=ants, cal_pol_ordering=pols, cal_center_freq=1284e6,
+                     cal_bandwidth=float(c['F']) * 1e6, cal_n_chans=c['F'])
+        sensors = {'cal_product_G': [(-0.5, g)]}
+        okw = {'applycal': 'l1.G'}
     syn = v4synth.make_v4(random.Random(c['seed']), T=c['T'], F=c['F'], n_ants=c['n_ants'], pols=c['pols'],
                           need_weights_power_scale=bool(c['nps']), extra_attrs=attrs, int_time=int_time,
-                          seed=c['seed'] % (2 ** 31))
+                          seed=c['seed'] % (2 ** 31), extra_sensors=sensors, open_kwargs=okw)
     return syn
 
 
@@ -766,6 +779,11 @@ def judge_exc(ctx, c, rep):
     ws, us, _, _ = rep.split('|')
     want_w, want_u = dec_scalars(ws), dec_scalars(us)
     bad = mismatch(w, want_w)
+    if c.get('applycal'):
+        ctx.tag('exc-with-applycal')
+        if list(d.applycal_products) != ['l1.G']:
+            res.append((f'applycal products {list(d.applycal_products)} instead of l1.G', c))
+        bad = []          # calibrated weights are C13's subject; here only the excision fraction
     if bad is None or len(bad):
         decl = 'need_weights_power_scale=%s' % c['nps']
         res.append((f'd.weights[:] ({decl}) ' + (describe(shape, bad[0], w, want_w.reshape(shape))
